@@ -169,6 +169,8 @@ package evaluator
 //@ ghost isFlt(v Val) Bool = isF64(v) || isF32(v)
 //@ ghost fval(v Val) F64 = ite(isF64(v), f64(v), f64Of32(f32(v)))
 //@ ghost isTypeErr(e Iface) Bool = isType(e, "*github.com/woodsbury/jmespath/internal/evaluator.InvalidTypeError")
+// the internal errors whose Is method answers to ErrInvalidValue (C08: the category is carried by the error's type)
+//@ ghost isValueErr(e Iface) Bool = e == global("evaluator.ErrInvalidValue") || isType(e, "*github.com/woodsbury/jmespath/internal/evaluator.fromItemsKeyTypeError") || isType(e, "*github.com/woodsbury/jmespath/internal/evaluator.fromItemsLengthError") || isType(e, "*github.com/woodsbury/jmespath/internal/evaluator.integerConversionError") || isType(e, "*github.com/woodsbury/jmespath/internal/evaluator.negativeIntegerError") || isType(e, "*github.com/woodsbury/jmespath/internal/evaluator.padLengthError")
 
 //@ func add
 //@   tags C05 C14 C18
@@ -383,7 +385,7 @@ package evaluator
 //@   ensures[C01 C17] case.FlattenAndProject: isType(node, "*parser.FlattenAndProjectNode") && err == nil ==> (exists a_left Val :: isEv(e.root, as(node, "parser.FlattenAndProjectNode").Left, current, variables, a_left) && returns("evaluator.evaluator.flattenAndProjectArray", e, a_left, as(node, "parser.FlattenAndProjectNode").Right, variables, result, err))
 //@   ensures[C01 C17] case.FlattenAndProjectCurrent: isType(node, "*parser.FlattenAndProjectCurrentNode") && err == nil ==> returns("evaluator.evaluator.flattenAndProjectArray", e, current, as(node, "parser.FlattenAndProjectCurrentNode").Child, variables, result, err)
 //@   ensures[C02] case.Floor: isType(node, "*parser.FloorNode") && err == nil ==> (exists a_arg Val :: isEv(e.root, as(node, "parser.FloorNode").Argument, current, variables, a_arg) && returns("evaluator.floor", a_arg, result, err))
-//@   ensures[C02] case.FromItems: isType(node, "*parser.FromItemsNode") && err == nil ==> (exists a_arg Val :: isEv(e.root, as(node, "parser.FromItemsNode").Argument, current, variables, a_arg) && returns("evaluator.fromItems", a_arg, result, err))
+//@   ensures[C02 C08] case.FromItems: isType(node, "*parser.FromItemsNode") && err == nil ==> (exists a_arg Val :: isEv(e.root, as(node, "parser.FromItemsNode").Argument, current, variables, a_arg) && returns("evaluator.fromItems", a_arg, result, err))
 //@   ensures[C01 C14] case.Greater: isType(node, "*parser.GreaterNode") && err == nil ==> (exists a_left Val, a_right Val :: isEv(e.root, as(node, "parser.GreaterNode").Left, current, variables, a_left) && isEv(e.root, as(node, "parser.GreaterNode").Right, current, variables, a_right) && returns("evaluator.greater", a_left, a_right, result))
 //@   ensures[C01 C14] case.GreaterOrEqual: isType(node, "*parser.GreaterOrEqualNode") && err == nil ==> (exists a_left Val, a_right Val :: isEv(e.root, as(node, "parser.GreaterOrEqualNode").Left, current, variables, a_left) && isEv(e.root, as(node, "parser.GreaterOrEqualNode").Right, current, variables, a_right) && returns("evaluator.greaterOrEqual", a_left, a_right, result))
 //@   ensures[C02] case.GroupBy: isType(node, "*parser.GroupByNode") && err == nil ==> (exists a_arg1 Val :: isEv(e.root, as(node, "parser.GroupByNode").Arguments[0], current, variables, a_arg1) && returns("evaluator.evaluator.groupBy", e, a_arg1, as(node, "parser.GroupByNode").Arguments[1], variables, result, err))
@@ -617,6 +619,7 @@ package evaluator
 //@     invariant len(values) == len(node.Arguments) && fresh(values) && 0 <= count && (iter >= 1 ==> count <= MaxAlloc)
 //@     invariant forall k Int :: 0 <= k && k < iter ==> count <= len(values[k])
 //@   loop 10
+//@     decreases count - i
 //@     invariant 0 <= i && i <= count && len(results) == count && fresh(results) && len(values) == len(node.Arguments) && fresh(values)
 //@     invariant forall k Int :: 0 <= k && k < len(values) ==> count <= len(values[k])
 //@   loop 11
@@ -669,15 +672,27 @@ package evaluator
 //@   requires node != nil
 //@   loop 1
 //@     invariant 0 <= index && index < len(a) && len(a) >= 1
+//@     invariant[C13] current: isArr(value0) && a == arr(value0) && (exists key Val :: isEv(e.root, node, a[index], variables, key) && isStr(key) && str(key) == strMax)
+//@     invariant[C13] extremal: forall k Int :: 0 <= k && k <= iter ==> (exists r Val :: isEv(e.root, node, a[k], variables, r) && isStr(r) && !(str(r) > strMax))
+//@     invariant forall k Int :: 0 <= k && k < len(a) - 1 ==> a[1:][k] == a[k + 1]
 //@   loop 2
 //@     invariant 0 <= index && index < len(a) && len(a) >= 1
+//@     invariant[C13] current: isArr(value0) && a == arr(value0) && (exists key Val :: isEv(e.root, node, a[index], variables, key) && numOk(key) && numDec(key) == numMax)
+//@     invariant[C13] extremal: forall k Int :: 0 <= k && k <= iter ==> (exists r Val :: isEv(e.root, node, a[k], variables, r) && numOk(r) && decCmp(numDec(r), numMax) != 1)
+//@     invariant forall k Int :: 0 <= k && k < len(a) - 1 ==> a[1:][k] == a[k + 1]
 //@ func evaluator.arrayMinBy
 //@   tags C03 C06 C13 C02
 //@   requires node != nil
 //@   loop 1
 //@     invariant 0 <= index && index < len(a) && len(a) >= 1
+//@     invariant[C13] current: isArr(value0) && a == arr(value0) && (exists key Val :: isEv(e.root, node, a[index], variables, key) && isStr(key) && str(key) == strMin)
+//@     invariant[C13] extremal: forall k Int :: 0 <= k && k <= iter ==> (exists r Val :: isEv(e.root, node, a[k], variables, r) && isStr(r) && !(str(r) < strMin))
+//@     invariant forall k Int :: 0 <= k && k < len(a) - 1 ==> a[1:][k] == a[k + 1]
 //@   loop 2
 //@     invariant 0 <= index && index < len(a) && len(a) >= 1
+//@     invariant[C13] current: isArr(value0) && a == arr(value0) && (exists key Val :: isEv(e.root, node, a[index], variables, key) && numOk(key) && numDec(key) == numMin)
+//@     invariant[C13] extremal: forall k Int :: 0 <= k && k <= iter ==> (exists r Val :: isEv(e.root, node, a[k], variables, r) && numOk(r) && decCmp(numDec(r), numMin) != 0 - 1)
+//@     invariant forall k Int :: 0 <= k && k < len(a) - 1 ==> a[1:][k] == a[k + 1]
 
 // object enumerations: the i-th slot is filled in the i-th iteration (C03, C15)
 //@ func items
@@ -812,9 +827,9 @@ package evaluator
 //@   tags C03 C09 C11 C02 C06
 //@   ensures type.value: !isStr(value) ==> result0 == nil && isTypeErr(result1)
 //@   ensures type.sep: isStr(value) && !isStr(sep) ==> result0 == nil && isTypeErr(result1)
-//@   ensures[C02] type.count: isStr(value) && isStr(sep) && !numOk(count) ==> result0 == nil && isTypeErr(result1)
-//@   ensures[C02] value.count: isStr(value) && isStr(sep) && numOk(count) && !intOk(count) ==> result0 == nil && isType(result1, "*github.com/woodsbury/jmespath/internal/evaluator.integerConversionError")
-//@   ensures[C02] negative: isStr(value) && isStr(sep) && numOk(count) && intOk(count) && intVal(count) < 0 ==> result0 == nil && isType(result1, "*github.com/woodsbury/jmespath/internal/evaluator.negativeIntegerError")
+//@   ensures[C02 C08] type.count: isStr(value) && isStr(sep) && !numOk(count) ==> result0 == nil && isTypeErr(result1)
+//@   ensures[C02 C08] value.count: isStr(value) && isStr(sep) && numOk(count) && !intOk(count) ==> result0 == nil && isType(result1, "*github.com/woodsbury/jmespath/internal/evaluator.integerConversionError")
+//@   ensures[C02 C08] negative: isStr(value) && isStr(sep) && numOk(count) && intOk(count) && intVal(count) < 0 ==> result0 == nil && isType(result1, "*github.com/woodsbury/jmespath/internal/evaluator.negativeIntegerError")
 //@   ensures ok: isStr(value) && isStr(sep) && numOk(count) && intOk(count) && intVal(count) >= 0 ==> result1 == nil && isArr(result0) && len(arr(result0)) <= intVal(count) + 1
 //@   loop 1
 //@     invariant 0 <= i && i <= n && n <= runes(str(value0)) - 1 && len(r) == n + 1 && fresh(r) && subwindow(s, str(value0)) && aligned(s) && runes(s) == runes(str(value0)) - i
@@ -829,10 +844,10 @@ package evaluator
 //@   tags C03 C09 C11 C02 C06
 //@   ensures type.value: !isStr(value) ==> result0 == nil && isTypeErr(result1)
 //@   ensures type.pad: isStr(value) && !isStr(pad) ==> result0 == nil && isTypeErr(result1)
-//@   ensures[C02] type.width: isStr(value) && isStr(pad) && !numOk(width) ==> result0 == nil && isTypeErr(result1)
-//@   ensures[C02] value.width: isStr(value) && isStr(pad) && numOk(width) && !intOk(width) ==> result0 == nil && isType(result1, "*github.com/woodsbury/jmespath/internal/evaluator.integerConversionError")
-//@   ensures[C02] negative: isStr(value) && isStr(pad) && numOk(width) && intOk(width) && intVal(width) < 0 ==> result0 == nil && isType(result1, "*github.com/woodsbury/jmespath/internal/evaluator.negativeIntegerError")
-//@   ensures[C02 C11] value.pad: isStr(value) && isStr(pad) && numOk(width) && intOk(width) && intVal(width) >= 0 && runesOf(str(pad)) != 1 ==> result0 == nil && isType(result1, "*github.com/woodsbury/jmespath/internal/evaluator.padLengthError")
+//@   ensures[C02 C08] type.width: isStr(value) && isStr(pad) && !numOk(width) ==> result0 == nil && isTypeErr(result1)
+//@   ensures[C02 C08] value.width: isStr(value) && isStr(pad) && numOk(width) && !intOk(width) ==> result0 == nil && isType(result1, "*github.com/woodsbury/jmespath/internal/evaluator.integerConversionError")
+//@   ensures[C02 C08] negative: isStr(value) && isStr(pad) && numOk(width) && intOk(width) && intVal(width) < 0 ==> result0 == nil && isType(result1, "*github.com/woodsbury/jmespath/internal/evaluator.negativeIntegerError")
+//@   ensures[C02 C11 C08] value.pad: isStr(value) && isStr(pad) && numOk(width) && intOk(width) && intVal(width) >= 0 && runesOf(str(pad)) != 1 ==> result0 == nil && isType(result1, "*github.com/woodsbury/jmespath/internal/evaluator.padLengthError")
 //@   ensures[C11 C02] width: isStr(value) && isStr(pad) && numOk(width) && intOk(width) && intVal(width) >= 0 && runesOf(str(pad)) == 1 ==> result1 == nil && isStr(result0) && runes(str(result0)) == max(intVal(width), runes(str(value)))
 //@   loop 1
 //@     invariant 0 <= n && n <= w - runes(str(value0)) && bldOk(b) && bldRunes(b) == w - runes(str(value0)) - n && w >= 0 && s == str(value0) && aligned(p) && runes(p) == 1
@@ -843,10 +858,10 @@ package evaluator
 //@   tags C03 C09 C11 C02 C06
 //@   ensures type.value: !isStr(value) ==> result0 == nil && isTypeErr(result1)
 //@   ensures type.pad: isStr(value) && !isStr(pad) ==> result0 == nil && isTypeErr(result1)
-//@   ensures[C02] type.width: isStr(value) && isStr(pad) && !numOk(width) ==> result0 == nil && isTypeErr(result1)
-//@   ensures[C02] value.width: isStr(value) && isStr(pad) && numOk(width) && !intOk(width) ==> result0 == nil && isType(result1, "*github.com/woodsbury/jmespath/internal/evaluator.integerConversionError")
-//@   ensures[C02] negative: isStr(value) && isStr(pad) && numOk(width) && intOk(width) && intVal(width) < 0 ==> result0 == nil && isType(result1, "*github.com/woodsbury/jmespath/internal/evaluator.negativeIntegerError")
-//@   ensures[C02 C11] value.pad: isStr(value) && isStr(pad) && numOk(width) && intOk(width) && intVal(width) >= 0 && runesOf(str(pad)) != 1 ==> result0 == nil && isType(result1, "*github.com/woodsbury/jmespath/internal/evaluator.padLengthError")
+//@   ensures[C02 C08] type.width: isStr(value) && isStr(pad) && !numOk(width) ==> result0 == nil && isTypeErr(result1)
+//@   ensures[C02 C08] value.width: isStr(value) && isStr(pad) && numOk(width) && !intOk(width) ==> result0 == nil && isType(result1, "*github.com/woodsbury/jmespath/internal/evaluator.integerConversionError")
+//@   ensures[C02 C08] negative: isStr(value) && isStr(pad) && numOk(width) && intOk(width) && intVal(width) < 0 ==> result0 == nil && isType(result1, "*github.com/woodsbury/jmespath/internal/evaluator.negativeIntegerError")
+//@   ensures[C02 C11 C08] value.pad: isStr(value) && isStr(pad) && numOk(width) && intOk(width) && intVal(width) >= 0 && runesOf(str(pad)) != 1 ==> result0 == nil && isType(result1, "*github.com/woodsbury/jmespath/internal/evaluator.padLengthError")
 //@   ensures[C11 C02] width: isStr(value) && isStr(pad) && numOk(width) && intOk(width) && intVal(width) >= 0 && runesOf(str(pad)) == 1 ==> result1 == nil && isStr(result0) && runes(str(result0)) == max(intVal(width), runes(str(value)))
 //@   loop 1
 //@     invariant 0 <= n && n <= w - runes(str(value0)) && bldOk(b) && bldRunes(b) == w - n && w >= 0 && s == str(value0) && aligned(p) && runes(p) == 1
@@ -856,9 +871,9 @@ package evaluator
 //@ func padSpaceLeft
 //@   tags C03 C09 C11 C02 C06
 //@   ensures type.value: !isStr(value) ==> result0 == nil && isTypeErr(result1)
-//@   ensures[C02] type.width: isStr(value) && !numOk(width) ==> result0 == nil && isTypeErr(result1)
-//@   ensures[C02] value.width: isStr(value) && numOk(width) && !intOk(width) ==> result0 == nil && isType(result1, "*github.com/woodsbury/jmespath/internal/evaluator.integerConversionError")
-//@   ensures[C02] negative: isStr(value) && numOk(width) && intOk(width) && intVal(width) < 0 ==> result0 == nil && isType(result1, "*github.com/woodsbury/jmespath/internal/evaluator.negativeIntegerError")
+//@   ensures[C02 C08] type.width: isStr(value) && !numOk(width) ==> result0 == nil && isTypeErr(result1)
+//@   ensures[C02 C08] value.width: isStr(value) && numOk(width) && !intOk(width) ==> result0 == nil && isType(result1, "*github.com/woodsbury/jmespath/internal/evaluator.integerConversionError")
+//@   ensures[C02 C08] negative: isStr(value) && numOk(width) && intOk(width) && intVal(width) < 0 ==> result0 == nil && isType(result1, "*github.com/woodsbury/jmespath/internal/evaluator.negativeIntegerError")
 //@   ensures[C11 C02] width: isStr(value) && numOk(width) && intOk(width) && intVal(width) >= 0 ==> result1 == nil && isStr(result0) && runes(str(result0)) == max(intVal(width), runes(str(value)))
 //@   loop 1
 //@     invariant 0 <= n && n <= w - runes(str(value0)) && bldOk(b) && bldRunes(b) == w - runes(str(value0)) - n && w >= 0 && s == str(value0)
@@ -868,9 +883,9 @@ package evaluator
 //@ func padSpaceRight
 //@   tags C03 C09 C11 C02 C06
 //@   ensures type.value: !isStr(value) ==> result0 == nil && isTypeErr(result1)
-//@   ensures[C02] type.width: isStr(value) && !numOk(width) ==> result0 == nil && isTypeErr(result1)
-//@   ensures[C02] value.width: isStr(value) && numOk(width) && !intOk(width) ==> result0 == nil && isType(result1, "*github.com/woodsbury/jmespath/internal/evaluator.integerConversionError")
-//@   ensures[C02] negative: isStr(value) && numOk(width) && intOk(width) && intVal(width) < 0 ==> result0 == nil && isType(result1, "*github.com/woodsbury/jmespath/internal/evaluator.negativeIntegerError")
+//@   ensures[C02 C08] type.width: isStr(value) && !numOk(width) ==> result0 == nil && isTypeErr(result1)
+//@   ensures[C02 C08] value.width: isStr(value) && numOk(width) && !intOk(width) ==> result0 == nil && isType(result1, "*github.com/woodsbury/jmespath/internal/evaluator.integerConversionError")
+//@   ensures[C02 C08] negative: isStr(value) && numOk(width) && intOk(width) && intVal(width) < 0 ==> result0 == nil && isType(result1, "*github.com/woodsbury/jmespath/internal/evaluator.negativeIntegerError")
 //@   ensures[C11 C02] width: isStr(value) && numOk(width) && intOk(width) && intVal(width) >= 0 ==> result1 == nil && isStr(result0) && runes(str(result0)) == max(intVal(width), runes(str(value)))
 //@   loop 1
 //@     invariant 0 <= n && n <= w - runes(str(value0)) && bldOk(b) && bldRunes(b) == w - n && w >= 0 && s == str(value0)
@@ -879,8 +894,8 @@ package evaluator
 
 //@ func replaceCount
 //@   tags C02 C03 C06
-//@   ensures[C02] negative: isStr(value) && isStr(old) && isStr(new) && numOk(count) && intOk(count) && intVal(count) < 0 ==> result0 == nil && isType(result1, "*github.com/woodsbury/jmespath/internal/evaluator.negativeIntegerError")
-//@   ensures[C02] value.count: isStr(value) && isStr(old) && isStr(new) && numOk(count) && !intOk(count) ==> result0 == nil && isType(result1, "*github.com/woodsbury/jmespath/internal/evaluator.integerConversionError")
+//@   ensures[C02 C08] negative: isStr(value) && isStr(old) && isStr(new) && numOk(count) && intOk(count) && intVal(count) < 0 ==> result0 == nil && isType(result1, "*github.com/woodsbury/jmespath/internal/evaluator.negativeIntegerError")
+//@   ensures[C02 C08] value.count: isStr(value) && isStr(old) && isStr(new) && numOk(count) && !intOk(count) ==> result0 == nil && isType(result1, "*github.com/woodsbury/jmespath/internal/evaluator.integerConversionError")
 //@   ensures ok: isStr(value) && isStr(old) && isStr(new) && numOk(count) && intOk(count) && intVal(count) >= 0 ==> result1 == nil && isStr(result0)
 
 //@ func length
@@ -947,11 +962,11 @@ package evaluator
 //@   tags C13 C02 C03 C06
 //@   ensures type.array: !isArr(v) ==> result0 == nil && isTypeErr(result1)
 //@   ensures empty: isArr(v) && len(arr(v)) == 0 ==> result0 == nil && result1 == nil
-//@   ensures[C13] type.first: isArr(v) && len(arr(v)) > 0 && !isStr(arr(v)[0]) && !numOk(arr(v)[0]) ==> result0 == nil && isTypeErr(result1)
+//@   ensures[C13 C08] type.first: isArr(v) && len(arr(v)) > 0 && !isStr(arr(v)[0]) && !numOk(arr(v)[0]) ==> result0 == nil && isTypeErr(result1)
 //@   ensures[C13 C11] strings: isArr(v) && len(arr(v)) > 0 && isStr(arr(v)[0]) && result1 == nil ==> isStr(result0) && (forall k Int :: 0 <= k && k < len(arr(v)) ==> isStr(arr(v)[k]) && !(str(arr(v)[k]) > str(result0)))
-//@   ensures[C13] strings.mixed: isArr(v) && len(arr(v)) > 0 && isStr(arr(v)[0]) ==> (result1 == nil <==> allStr(old(heap), arr(v), len(arr(v)))) && (result1 != nil ==> result0 == nil && isTypeErr(result1))
+//@   ensures[C13 C08] strings.mixed: isArr(v) && len(arr(v)) > 0 && isStr(arr(v)[0]) ==> (result1 == nil <==> allStr(old(heap), arr(v), len(arr(v)))) && (result1 != nil ==> result0 == nil && isTypeErr(result1))
 //@   ensures[C13 C05] numbers: isArr(v) && len(arr(v)) > 0 && numOk(arr(v)[0]) && result1 == nil ==> isDec(result0) && (forall k Int :: 0 <= k && k < len(arr(v)) ==> numOk(arr(v)[k]) && decCmp(numDec(arr(v)[k]), dec(result0)) != 1)
-//@   ensures[C13] numbers.mixed: isArr(v) && len(arr(v)) > 0 && numOk(arr(v)[0]) ==> (result1 == nil <==> allNum(old(heap), arr(v), len(arr(v)))) && (result1 != nil ==> result0 == nil && isTypeErr(result1))
+//@   ensures[C13 C08] numbers.mixed: isArr(v) && len(arr(v)) > 0 && numOk(arr(v)[0]) ==> (result1 == nil <==> allNum(old(heap), arr(v), len(arr(v)))) && (result1 != nil ==> result0 == nil && isTypeErr(result1))
 //@   loop 1
 //@     invariant isArr(v0) && a == arr(v0) && len(a) > 0 && isStr(a[0]) && aligned(max) && allStr(old(heap), a, iter + 1)
 //@     invariant forall k Int :: 0 <= k && k <= iter ==> isStr(a[k]) && !(str(a[k]) > max)
@@ -965,11 +980,11 @@ package evaluator
 //@   tags C13 C02 C03 C06
 //@   ensures type.array: !isArr(v) ==> result0 == nil && isTypeErr(result1)
 //@   ensures empty: isArr(v) && len(arr(v)) == 0 ==> result0 == nil && result1 == nil
-//@   ensures[C13] type.first: isArr(v) && len(arr(v)) > 0 && !isStr(arr(v)[0]) && !numOk(arr(v)[0]) ==> result0 == nil && isTypeErr(result1)
+//@   ensures[C13 C08] type.first: isArr(v) && len(arr(v)) > 0 && !isStr(arr(v)[0]) && !numOk(arr(v)[0]) ==> result0 == nil && isTypeErr(result1)
 //@   ensures[C13 C11] strings: isArr(v) && len(arr(v)) > 0 && isStr(arr(v)[0]) && result1 == nil ==> isStr(result0) && (forall k Int :: 0 <= k && k < len(arr(v)) ==> isStr(arr(v)[k]) && !(str(arr(v)[k]) < str(result0)))
-//@   ensures[C13] strings.mixed: isArr(v) && len(arr(v)) > 0 && isStr(arr(v)[0]) ==> (result1 == nil <==> allStr(old(heap), arr(v), len(arr(v)))) && (result1 != nil ==> result0 == nil && isTypeErr(result1))
+//@   ensures[C13 C08] strings.mixed: isArr(v) && len(arr(v)) > 0 && isStr(arr(v)[0]) ==> (result1 == nil <==> allStr(old(heap), arr(v), len(arr(v)))) && (result1 != nil ==> result0 == nil && isTypeErr(result1))
 //@   ensures[C13 C05] numbers: isArr(v) && len(arr(v)) > 0 && numOk(arr(v)[0]) && result1 == nil ==> isDec(result0) && (forall k Int :: 0 <= k && k < len(arr(v)) ==> numOk(arr(v)[k]) && decCmp(numDec(arr(v)[k]), dec(result0)) != 0 - 1)
-//@   ensures[C13] numbers.mixed: isArr(v) && len(arr(v)) > 0 && numOk(arr(v)[0]) ==> (result1 == nil <==> allNum(old(heap), arr(v), len(arr(v)))) && (result1 != nil ==> result0 == nil && isTypeErr(result1))
+//@   ensures[C13 C08] numbers.mixed: isArr(v) && len(arr(v)) > 0 && numOk(arr(v)[0]) ==> (result1 == nil <==> allNum(old(heap), arr(v), len(arr(v)))) && (result1 != nil ==> result0 == nil && isTypeErr(result1))
 //@   loop 1
 //@     invariant isArr(v0) && a == arr(v0) && len(a) > 0 && isStr(a[0]) && aligned(min) && allStr(old(heap), a, iter + 1)
 //@     invariant forall k Int :: 0 <= k && k <= iter ==> isStr(a[k]) && !(str(a[k]) < min)
@@ -994,12 +1009,16 @@ package evaluator
 //@   ensures empty: isArr(value) && len(arr(value)) == 0 ==> err == nil && result == nil
 //@   ensures[C13 C19] first.key: isArr(value) && len(arr(value)) >= 1 && err == nil ==> isEv(e.root, node, arr(value)[0], variables, call1) && (isStr(call1) || numOk(call1))
 //@   ensures[C13] element: isArr(value) && len(arr(value)) >= 1 && err == nil ==> (exists k Int :: 0 <= k && k < len(arr(value)) && result == arr(value)[k])
+//@   ensures[C13] extremal.strings: isArr(value) && len(arr(value)) >= 1 && err == nil && isStr(call1) ==> (exists kr Int, key Val :: 0 <= kr && kr < len(arr(value)) && result == arr(value)[kr] && isEv(e.root, node, arr(value)[kr], variables, key) && isStr(key) && (forall k Int :: 0 <= k && k < len(arr(value)) ==> (exists r Val :: isEv(e.root, node, arr(value)[k], variables, r) && isStr(r) && !(str(r) > str(key)))))
+//@   ensures[C13] extremal.numbers: isArr(value) && len(arr(value)) >= 1 && err == nil && !isStr(call1) ==> (exists kr Int, key Val :: 0 <= kr && kr < len(arr(value)) && result == arr(value)[kr] && isEv(e.root, node, arr(value)[kr], variables, key) && numOk(key) && (forall k Int :: 0 <= k && k < len(arr(value)) ==> (exists r Val :: isEv(e.root, node, arr(value)[k], variables, r) && numOk(r) && decCmp(numDec(r), numDec(key)) != 1)))
 //@ func evaluator.arrayMinBy
 //@   ensures type.array: !isArr(value) ==> result == nil && isTypeErr(err)
 //@   ensures failure: err != nil ==> result == nil
 //@   ensures empty: isArr(value) && len(arr(value)) == 0 ==> err == nil && result == nil
 //@   ensures[C13 C19] first.key: isArr(value) && len(arr(value)) >= 1 && err == nil ==> isEv(e.root, node, arr(value)[0], variables, call1) && (isStr(call1) || numOk(call1))
 //@   ensures[C13] element: isArr(value) && len(arr(value)) >= 1 && err == nil ==> (exists k Int :: 0 <= k && k < len(arr(value)) && result == arr(value)[k])
+//@   ensures[C13] extremal.strings: isArr(value) && len(arr(value)) >= 1 && err == nil && isStr(call1) ==> (exists kr Int, key Val :: 0 <= kr && kr < len(arr(value)) && result == arr(value)[kr] && isEv(e.root, node, arr(value)[kr], variables, key) && isStr(key) && (forall k Int :: 0 <= k && k < len(arr(value)) ==> (exists r Val :: isEv(e.root, node, arr(value)[k], variables, r) && isStr(r) && !(str(r) < str(key)))))
+//@   ensures[C13] extremal.numbers: isArr(value) && len(arr(value)) >= 1 && err == nil && !isStr(call1) ==> (exists kr Int, key Val :: 0 <= kr && kr < len(arr(value)) && result == arr(value)[kr] && isEv(e.root, node, arr(value)[kr], variables, key) && numOk(key) && (forall k Int :: 0 <= k && k < len(arr(value)) ==> (exists r Val :: isEv(e.root, node, arr(value)[k], variables, r) && numOk(r) && decCmp(numDec(r), numDec(key)) != 0 - 1)))
 
 // sort(): the comparator literals lower a flag when they meet an element of the wrong type; slices.SortFunc calls them
 // with every element when there are two or more (callback clause in ext.gvc), so a successful sort means that all
@@ -1016,7 +1035,7 @@ package evaluator
 //@   tags C13 C02 C03 C06
 //@   at SortFunc#1 invariant[C13 C02] strs: cell(valid) ==> (forall k Int :: {cbSeen(k)} cbSeen(k) ==> isStr(cbElem(k)))
 //@   at SortFunc#2 invariant[C13 C02] nums: cell(valid) ==> (forall k Int :: {cbSeen(k)} cbSeen(k) ==> numOk(cbElem(k)))
-//@   ensures[C13 C02] type.array: !isArr(v) ==> result0 == nil && isTypeErr(result1)
+//@   ensures[C13 C02 C08] type.array: !isArr(v) ==> result0 == nil && isTypeErr(result1)
 //@   ensures[C13 C02] strings.only: isArr(v) && len(arr(v)) >= 1 && isStr(arr(v)[0]) && result1 == nil ==> (forall k Int :: 0 <= k && k < len(arr(v)) ==> isStr(arr(v)[k]))
 //@   ensures[C13 C02] numbers.only: isArr(v) && len(arr(v)) >= 1 && !isStr(arr(v)[0]) && result1 == nil ==> (forall k Int :: 0 <= k && k < len(arr(v)) ==> numOk(arr(v)[k]))
 //@   ensures[C13 C02 C08] failure: result1 != nil ==> result0 == nil
@@ -1024,89 +1043,91 @@ package evaluator
 // string builtins that delegate to package strings (C02): the argument types and the library function applied
 //@ func lower
 //@   tags C02 C03 C06 C11
-//@   ensures[C02] type: !isStr(v) ==> result0 == nil && isTypeErr(result1)
+//@   ensures[C02 C08] type: !isStr(v) ==> result0 == nil && isTypeErr(result1)
 //@   ensures[C02] value: isStr(v) ==> result1 == nil && isStr(result0) && str(result0) == strToLower(str(v))
 //@ func upper
 //@   tags C02 C03 C06 C11
-//@   ensures[C02] type: !isStr(v) ==> result0 == nil && isTypeErr(result1)
+//@   ensures[C02 C08] type: !isStr(v) ==> result0 == nil && isTypeErr(result1)
 //@   ensures[C02] value: isStr(v) ==> result1 == nil && isStr(result0) && str(result0) == strToUpper(str(v))
 //@ func trimSpace
 //@   tags C02 C03 C06 C11
-//@   ensures[C02] type: !isStr(value) ==> result0 == nil && isTypeErr(result1)
+//@   ensures[C02 C08] type: !isStr(value) ==> result0 == nil && isTypeErr(result1)
 //@   ensures[C02] value: isStr(value) ==> result1 == nil && isStr(result0) && str(result0) == strTrimSpace(str(value))
 //@ func trimSpaceLeft
 //@   tags C02 C03 C06 C11
-//@   ensures[C02] type: !isStr(value) ==> result0 == nil && isTypeErr(result1)
+//@   ensures[C02 C08] type: !isStr(value) ==> result0 == nil && isTypeErr(result1)
 //@   ensures[C02] value: isStr(value) ==> result1 == nil && isStr(result0) && str(result0) == strTrimSpaceLeft(str(value))
 //@ func trimSpaceRight
 //@   tags C02 C03 C06 C11
-//@   ensures[C02] type: !isStr(value) ==> result0 == nil && isTypeErr(result1)
+//@   ensures[C02 C08] type: !isStr(value) ==> result0 == nil && isTypeErr(result1)
 //@   ensures[C02] value: isStr(value) ==> result1 == nil && isStr(result0) && str(result0) == strTrimSpaceRight(str(value))
 //@ func endsWith
 //@   tags C02 C03 C06
-//@   ensures[C02] type.value: !isStr(value) ==> result0 == nil && isTypeErr(result1)
-//@   ensures[C02] type.arg: isStr(value) && !isStr(suffix) ==> result0 == nil && isTypeErr(result1)
+//@   ensures[C02 C08] type.value: !isStr(value) ==> result0 == nil && isTypeErr(result1)
+//@   ensures[C02 C08] type.arg: isStr(value) && !isStr(suffix) ==> result0 == nil && isTypeErr(result1)
 //@   ensures[C02] value: isStr(value) && isStr(suffix) ==> result1 == nil && result0 == mkBool(strHasSuffix(key(str(value)), key(str(suffix))))
 //@ func startsWith
 //@   tags C02 C03 C06
-//@   ensures[C02] type.value: !isStr(value) ==> result0 == nil && isTypeErr(result1)
-//@   ensures[C02] type.arg: isStr(value) && !isStr(prefix) ==> result0 == nil && isTypeErr(result1)
+//@   ensures[C02 C08] type.value: !isStr(value) ==> result0 == nil && isTypeErr(result1)
+//@   ensures[C02 C08] type.arg: isStr(value) && !isStr(prefix) ==> result0 == nil && isTypeErr(result1)
 //@   ensures[C02] value: isStr(value) && isStr(prefix) ==> result1 == nil && result0 == mkBool(strHasPrefix(key(str(value)), key(str(prefix))))
 //@ func trim
 //@   tags C02 C03 C06 C11
-//@   ensures[C02] type.value: !isStr(value) ==> result0 == nil && isTypeErr(result1)
-//@   ensures[C02] type.arg: isStr(value) && !isStr(cut) ==> result0 == nil && isTypeErr(result1)
+//@   ensures[C02 C08] type.value: !isStr(value) ==> result0 == nil && isTypeErr(result1)
+//@   ensures[C02 C08] type.arg: isStr(value) && !isStr(cut) ==> result0 == nil && isTypeErr(result1)
 //@   ensures[C02] default: isStr(value) && isStr(cut) && len(str(cut)) == 0 ==> result1 == nil && isStr(result0) && str(result0) == strTrimSpace(str(value))
 //@   ensures[C02] value: isStr(value) && isStr(cut) && len(str(cut)) > 0 ==> result1 == nil && isStr(result0) && str(result0) == strTrim(str(value), str(cut))
 //@ func trimLeft
 //@   tags C02 C03 C06 C11
-//@   ensures[C02] type.value: !isStr(value) ==> result0 == nil && isTypeErr(result1)
-//@   ensures[C02] type.arg: isStr(value) && !isStr(cut) ==> result0 == nil && isTypeErr(result1)
+//@   ensures[C02 C08] type.value: !isStr(value) ==> result0 == nil && isTypeErr(result1)
+//@   ensures[C02 C08] type.arg: isStr(value) && !isStr(cut) ==> result0 == nil && isTypeErr(result1)
 //@   ensures[C02] default: isStr(value) && isStr(cut) && len(str(cut)) == 0 ==> result1 == nil && isStr(result0) && str(result0) == strTrimSpaceLeft(str(value))
 //@   ensures[C02] value: isStr(value) && isStr(cut) && len(str(cut)) > 0 ==> result1 == nil && isStr(result0) && str(result0) == strTrimLeft(str(value), str(cut))
 //@ func trimRight
 //@   tags C02 C03 C06 C11
-//@   ensures[C02] type.value: !isStr(value) ==> result0 == nil && isTypeErr(result1)
-//@   ensures[C02] type.arg: isStr(value) && !isStr(cut) ==> result0 == nil && isTypeErr(result1)
+//@   ensures[C02 C08] type.value: !isStr(value) ==> result0 == nil && isTypeErr(result1)
+//@   ensures[C02 C08] type.arg: isStr(value) && !isStr(cut) ==> result0 == nil && isTypeErr(result1)
 //@   ensures[C02] default: isStr(value) && isStr(cut) && len(str(cut)) == 0 ==> result1 == nil && isStr(result0) && str(result0) == strTrimSpaceRight(str(value))
 //@   ensures[C02] value: isStr(value) && isStr(cut) && len(str(cut)) > 0 ==> result1 == nil && isStr(result0) && str(result0) == strTrimRight(str(value), str(cut))
 //@ func replace
 //@   tags C02 C03 C06 C11
-//@   ensures[C02] type.value: !isStr(value) ==> result0 == nil && isTypeErr(result1)
-//@   ensures[C02] type.old: isStr(value) && !isStr(old) ==> result0 == nil && isTypeErr(result1)
-//@   ensures[C02] type.new: isStr(value) && isStr(old) && !isStr(new) ==> result0 == nil && isTypeErr(result1)
+//@   ensures[C02 C08] type.value: !isStr(value) ==> result0 == nil && isTypeErr(result1)
+//@   ensures[C02 C08] type.old: isStr(value) && !isStr(old) ==> result0 == nil && isTypeErr(result1)
+//@   ensures[C02 C08] type.new: isStr(value) && isStr(old) && !isStr(new) ==> result0 == nil && isTypeErr(result1)
 //@   ensures[C02] value: isStr(value) && isStr(old) && isStr(new) ==> result1 == nil && isStr(result0) && str(result0) == strReplace(str(value), str(old), str(new), 0 - 1)
 
 // object enumerations (C02, C15): length, and where each element comes from
 //@ func keys
-//@   ensures[C02] type: !isObj(v) ==> result0 == nil && isTypeErr(result1)
+//@   ensures[C02 C08] type: !isObj(v) ==> result0 == nil && isTypeErr(result1)
 //@   ensures[C02 C15] value: isObj(v) ==> result1 == nil && isArr(result0) && len(arr(result0)) == len(obj(v)) && (forall j Int :: 0 <= j && j < len(arr(result0)) ==> isStr(arr(result0)[j]) && has(obj(v), str(arr(result0)[j])))
 //@ func values
-//@   ensures[C02] type: !isObj(v) ==> result0 == nil && isTypeErr(result1)
+//@   ensures[C02 C08] type: !isObj(v) ==> result0 == nil && isTypeErr(result1)
 //@   ensures[C02 C15] value: isObj(v) ==> result1 == nil && isArr(result0) && len(arr(result0)) == len(obj(v))
 //@ func objectValues
 //@   ensures[C01] nonobject: !isObj(v) ==> result == nil
 //@   ensures[C01 C15] value: isObj(v) ==> isArr(result) && len(arr(result)) == len(obj(v))
 //@ func items
-//@   ensures[C02] type: !isObj(v) ==> result0 == nil && isTypeErr(result1)
+//@   ensures[C02 C08] type: !isObj(v) ==> result0 == nil && isTypeErr(result1)
 //@   ensures[C02 C15] value: isObj(v) ==> result1 == nil && isArr(result0) && len(arr(result0)) == len(obj(v))
 
 //@ func fromItems
 //@   tags C02 C03 C06
-//@   ensures[C02] type: !isArr(v) ==> result0 == nil && isTypeErr(result1)
+//@   ensures[C02 C08] type: !isArr(v) ==> result0 == nil && isTypeErr(result1)
 //@   ensures[C02] failure: result1 != nil ==> result0 == nil
+//@   ensures[C08 C02] pair.fault: isArr(v) && result1 != nil && (forall j Int :: 0 <= j && j < len(arr(v)) ==> isArr(arr(v)[j])) ==> isValueErr(result1)
+//@   ensures[C08 C02] item.type: isArr(v) && result1 != nil && !isValueErr(result1) ==> isTypeErr(result1)
 //@   ensures[C02] value: isArr(v) && result1 == nil ==> isObj(result0) && fresh(obj(result0)) && (forall j Int :: 0 <= j && j < len(arr(v)) ==> isArr(arr(v)[j]) && len(arr(arr(v)[j])) == 2 && isStr(arr(arr(v)[j])[0]) && has(obj(result0), str(arr(arr(v)[j])[0])))
 //@   loop 1
 //@     invariant[C02] pairs: isArr(v0) && a == arr(v0) && fresh(r) && r != nil && (forall j Int :: 0 <= j && j < iter ==> isArr(a[j]) && len(arr(a[j])) == 2 && isStr(arr(a[j])[0]) && has(r, str(arr(a[j])[0])))
 //@ func reverse
-//@   ensures[C02] type: !isStr(v) && !isArr(v) ==> result0 == nil && isTypeErr(result1)
+//@   ensures[C02 C08] type: !isStr(v) && !isArr(v) ==> result0 == nil && isTypeErr(result1)
 //@   ensures[C02 C11] string: isStr(v) ==> result1 == nil && isStr(result0)
 //@   ensures[C02] array: isArr(v) ==> result1 == nil && isArr(result0) && len(arr(result0)) == len(arr(v)) && (forall k Int :: 0 <= k && k < len(arr(v)) ==> arr(result0)[k] == arr(v)[len(arr(v)) - 1 - k])
 // sum and avg fold decimal128 addition over the decimal values of the elements, left to right, starting from zero (C05)
 //@ ghost dsum(h Heap, s Slice, n Int) Dec = ite(n <= 0, decZero(), decAdd(dsum(h, s, n - 1), numDec(at(h, s, n - 1))))
 //@ func sum
 //@   tags C02 C05 C03 C06
-//@   ensures[C02] type: !isArr(v) ==> result0 == nil && isTypeErr(result1)
+//@   ensures[C02 C08] type: !isArr(v) ==> result0 == nil && isTypeErr(result1)
 //@   ensures[C02 C08] failure: result1 != nil ==> result0 == nil
 //@   ensures[C02 C05] elements: isArr(v) && result1 == nil ==> allNum(old(heap), arr(v), len(arr(v)))
 //@   ensures[C05] value: isArr(v) && result1 == nil ==> isDec(result0) && dec(result0) == dsum(old(heap), arr(v), len(arr(v))) && decIsFin(dec(result0))
@@ -1116,7 +1137,7 @@ package evaluator
 //@     invariant[C05 C02] fold: isArr(v0) && a == arr(v0) && r == dsum(old(heap), a, iter) && allNum(old(heap), a, iter)
 //@ func avg
 //@   tags C02 C05 C03 C06
-//@   ensures[C02] type: !isArr(v) ==> result0 == nil && isTypeErr(result1)
+//@   ensures[C02 C08] type: !isArr(v) ==> result0 == nil && isTypeErr(result1)
 //@   ensures[C02 C08] failure: result1 != nil ==> result0 == nil
 //@   ensures[C02] empty: isArr(v) && len(arr(v)) == 0 ==> result0 == nil && result1 == nil
 //@   ensures[C02 C05] elements: isArr(v) && len(arr(v)) > 0 && result1 == nil ==> allNum(old(heap), arr(v), len(arr(v)))
